@@ -130,3 +130,111 @@ fn client_nonvacuity() {
     }
     assert(!(r is None));     // the diagonals of the unit square cross
 }
+
+// reversing the direction of the first segment does not change the classification, nor the point
+pub proof fn lemma_answer_direction_independent(a1: Coord<R>, a2: Coord<R>, b1: Coord<R>, b2: Coord<R>, r1: LineIntersection, r2: LineIntersection)
+    requires !same_pt(a1, a2), !same_pt(b1, b2), exact_answer(a1, a2, b1, b2, r1), exact_answer(a2, a1, b1, b2, r2),
+    ensures
+        (r1 is None) == (r2 is None), (r1 is Point) == (r2 is Point), (r1 is Overlap) == (r2 is Overlap),
+        r1 is Point ==> same_pt(r1->Point_0, r2->Point_0),
+{
+    // meet(a1,a2,b,s,t) <==> meet(a2,a1,b,1-s,t), and the two parametrisations name the same point
+    assert forall|s: real, t: real| #![trigger meet(a1, a2, b1, b2, s, t)] meet(a1, a2, b1, b2, s, t) <==> meet(a2, a1, b1, b2, 1real - s, t) by {
+        lemma_meet_symmetric(a1, a2, b1, b2, s, t);
+    }
+    assert forall|s: real, t: real| #![trigger meet(a2, a1, b1, b2, s, t)] meet(a2, a1, b1, b2, s, t) <==> meet(a1, a2, b1, b2, 1real - s, t) by {
+        lemma_meet_symmetric(a1, a2, b1, b2, 1real - s, t);
+        assert(1real - (1real - s) == s);
+    }
+    assert forall|p: Coord<R>, s: real| is_at(p, a1, a2, s) <==> is_at(p, a2, a1, 1real - s) by {
+        assert(seg_x(a2, a1, 1real - s) == seg_x(a1, a2, s)) by(nonlinear_arith)
+            requires seg_x(a2, a1, 1real - s) == vx(a2) + (1real - s) * (vx(a1) - vx(a2)), seg_x(a1, a2, s) == vx(a1) + s * (vx(a2) - vx(a1));
+        assert(seg_y(a2, a1, 1real - s) == seg_y(a1, a2, s)) by(nonlinear_arith)
+            requires seg_y(a2, a1, 1real - s) == vy(a2) + (1real - s) * (vy(a1) - vy(a2)), seg_y(a1, a2, s) == vy(a1) + s * (vy(a2) - vy(a1));
+    }
+    // a witness of a common point for one direction is one for the other
+    match r1 {
+        LineIntersection::None => {
+            match r2 {
+                LineIntersection::None => {}
+                LineIntersection::Point(p) => {
+                    let (s, t) = choose|s: real, t: real| #[trigger] meet(a2, a1, b1, b2, s, t) && is_at(p, a2, a1, s);
+                    assert(meet(a1, a2, b1, b2, 1real - s, t));
+                }
+                LineIntersection::Overlap(p, q) => {
+                    let (u1, u2) = choose|u1: real, u2: real| {
+                        &&& 0real <= u1 < u2 <= 1real
+                        &&& #[trigger] is_at(p, a2, a1, u1) && #[trigger] is_at(q, a2, a1, u2)
+                        &&& forall|s: real, t: real| #[trigger] meet(a2, a1, b1, b2, s, t) ==> u1 <= s <= u2
+                        &&& forall|s: real| u1 <= s <= u2 ==> #[trigger] on_both(a2, a1, b1, b2, s)
+                    };
+                    assert(on_both(a2, a1, b1, b2, u1));
+                    let t = choose|t: real| meet(a2, a1, b1, b2, u1, t);
+                    assert(meet(a1, a2, b1, b2, 1real - u1, t));
+                }
+            }
+        }
+        LineIntersection::Point(p) => {
+            let (s, t) = choose|s: real, t: real| #[trigger] meet(a1, a2, b1, b2, s, t) && is_at(p, a1, a2, s);
+            assert(meet(a2, a1, b1, b2, 1real - s, t));
+            match r2 {
+                LineIntersection::None => {}
+                LineIntersection::Point(p2) => {
+                    assert(is_at(p2, a2, a1, 1real - s));
+                    assert(is_at(p, a2, a1, 1real - s));
+                }
+                LineIntersection::Overlap(p2, q2) => {
+                    let (u1, u2) = choose|u1: real, u2: real| {
+                        &&& 0real <= u1 < u2 <= 1real
+                        &&& #[trigger] is_at(p2, a2, a1, u1) && #[trigger] is_at(q2, a2, a1, u2)
+                        &&& forall|s: real, t: real| #[trigger] meet(a2, a1, b1, b2, s, t) ==> u1 <= s <= u2
+                        &&& forall|s: real| u1 <= s <= u2 ==> #[trigger] on_both(a2, a1, b1, b2, s)
+                    };
+                    // both ends of the overlap are common points, hence equal to the unique common point p: u1 == u2
+                    assert(on_both(a2, a1, b1, b2, u1) && on_both(a2, a1, b1, b2, u2));
+                    let t1 = choose|t: real| meet(a2, a1, b1, b2, u1, t);
+                    let t2 = choose|t: real| meet(a2, a1, b1, b2, u2, t);
+                    assert(meet(a1, a2, b1, b2, 1real - u1, t1) && meet(a1, a2, b1, b2, 1real - u2, t2));
+                    assert(is_at(p, a1, a2, 1real - u1) && is_at(p, a1, a2, 1real - u2));
+                    assert(((1real - u1) - (1real - u2)) * (vx(a2) - vx(a1)) == 0real) by(nonlinear_arith)
+                        requires vx(a1) + (1real - u1) * (vx(a2) - vx(a1)) == vx(a1) + (1real - u2) * (vx(a2) - vx(a1));
+                    assert(((1real - u1) - (1real - u2)) * (vy(a2) - vy(a1)) == 0real) by(nonlinear_arith)
+                        requires vy(a1) + (1real - u1) * (vy(a2) - vy(a1)) == vy(a1) + (1real - u2) * (vy(a2) - vy(a1));
+                    if vx(a1) != vx(a2) {
+                        lemma_cancel((1real - u1) - (1real - u2), vx(a2) - vx(a1));
+                    } else {
+                        lemma_cancel((1real - u1) - (1real - u2), vy(a2) - vy(a1));
+                    }
+                }
+            }
+        }
+        LineIntersection::Overlap(p, q) => {
+            let (u1, u2) = choose|u1: real, u2: real| {
+                &&& 0real <= u1 < u2 <= 1real
+                &&& #[trigger] is_at(p, a1, a2, u1) && #[trigger] is_at(q, a1, a2, u2)
+                &&& forall|s: real, t: real| #[trigger] meet(a1, a2, b1, b2, s, t) ==> u1 <= s <= u2
+                &&& forall|s: real| u1 <= s <= u2 ==> #[trigger] on_both(a1, a2, b1, b2, s)
+            };
+            assert(on_both(a1, a2, b1, b2, u1) && on_both(a1, a2, b1, b2, u2));
+            let t1 = choose|t: real| meet(a1, a2, b1, b2, u1, t);
+            let t2 = choose|t: real| meet(a1, a2, b1, b2, u2, t);
+            assert(meet(a2, a1, b1, b2, 1real - u1, t1) && meet(a2, a1, b1, b2, 1real - u2, t2));
+            match r2 {
+                LineIntersection::None => {}
+                LineIntersection::Point(p2) => {
+                    assert(is_at(p2, a2, a1, 1real - u1) && is_at(p2, a2, a1, 1real - u2));
+                    assert(((1real - u1) - (1real - u2)) * (vx(a1) - vx(a2)) == 0real) by(nonlinear_arith)
+                        requires vx(a2) + (1real - u1) * (vx(a1) - vx(a2)) == vx(a2) + (1real - u2) * (vx(a1) - vx(a2));
+                    assert(((1real - u1) - (1real - u2)) * (vy(a1) - vy(a2)) == 0real) by(nonlinear_arith)
+                        requires vy(a2) + (1real - u1) * (vy(a1) - vy(a2)) == vy(a2) + (1real - u2) * (vy(a1) - vy(a2));
+                    if vx(a1) != vx(a2) {
+                        lemma_cancel((1real - u1) - (1real - u2), vx(a1) - vx(a2));
+                    } else {
+                        lemma_cancel((1real - u1) - (1real - u2), vy(a1) - vy(a2));
+                    }
+                }
+                LineIntersection::Overlap(p2, q2) => {}
+            }
+        }
+    }
+}
